@@ -480,3 +480,146 @@ pub fn read_replay_case(p: &Path) -> Value {
     let v: Value = serde_json::from_str(&txt).unwrap_or_else(|e| machinery_failure(&format!("replay json: {e}")));
     v.get("case").cloned().unwrap_or(v)
 }
+
+// ---------------------------------------------------------------------------
+// Engine SEQ: explicit-state BFS over event histories of a real system.
+// ---------------------------------------------------------------------------
+
+/// A system explored by history replay.  `Sys` bundles the live real object(s)
+/// and the harness-side reference model; it is rebuilt from scratch for every
+/// history (live objects cannot be cloned).
+pub trait SeqModel: Sync {
+    type Ev: Clone + Send + Sync;
+    type Sys;
+    fn init(&self) -> Self::Sys;
+    /// Events enabled in the state reached by `hist` (small finite menu, simplest first).
+    fn enabled(&self, sys: &Self::Sys, hist: &[Self::Ev]) -> Vec<Self::Ev>;
+    /// Apply one event to the real object and to the reference model.  When
+    /// `check` is set, evaluate the oracle on the resulting state and push violations.
+    fn apply(&self, sys: &mut Self::Sys, ev: &Self::Ev, check: bool, out: &mut Vec<(Vec<(String, String)>, String)>);
+    /// Canonical key of the state (observations + ledger), used for deduplication.
+    fn key(&self, sys: &Self::Sys) -> String;
+    fn ev_str(&self, ev: &Self::Ev) -> String;
+    fn engine_name(&self) -> String;
+    /// Extra JSON stored with every replay case (configuration of the model).
+    fn config_json(&self) -> Value {
+        Value::Null
+    }
+    /// Is the state "non-trivial" for evidence purposes?
+    fn nontrivial(&self, _sys: &Self::Sys) -> bool {
+        true
+    }
+}
+
+pub struct SeqStats {
+    pub depth_completed: usize,
+    pub frontier_left: usize,
+    pub closed: bool,
+}
+
+pub fn seq_replay<M: SeqModel>(m: &M, hist: &[M::Ev], check_all: bool) -> (M::Sys, Vec<Violation>) {
+    let mut sys = m.init();
+    let mut out = vec![];
+    for (i, ev) in hist.iter().enumerate() {
+        let check = check_all || i + 1 == hist.len();
+        let mut raw = vec![];
+        m.apply(&mut sys, ev, check, &mut raw);
+        for (sig, detail) in raw {
+            let fields: Vec<(&str, &str)> = sig.iter().map(|(k, v)| (k.as_str(), v.as_str())).collect();
+            let case = json!({
+                "engine": m.engine_name(),
+                "config": m.config_json(),
+                "history": hist[..=i].iter().map(|e| m.ev_str(e)).collect::<Vec<_>>(),
+            });
+            out.push(Violation::new(&fields, case, detail));
+        }
+    }
+    (sys, out)
+}
+
+/// Breadth-first search by history length with deduplication on `key`.
+/// Expansion stops below a violating step (the reference no longer describes the system).
+pub fn seq_bfs<M: SeqModel>(m: &M, max_depth: usize, max_states: u64, rep: &mut Report) -> SeqStats {
+    use std::collections::HashSet;
+    let mut seen: HashSet<u64> = HashSet::new();
+    let s0 = m.init();
+    seen.insert(hash_of(&m.key(&s0)));
+    rep.states += 1;
+    let mut frontier: Vec<Vec<M::Ev>> = vec![vec![]];
+    let mut depth_completed = 0;
+    let mut capped = false;
+    for d in 0..max_depth {
+        if frontier.is_empty() {
+            break;
+        }
+        let results = par_map(&frontier, cores(), |_, h| {
+            let (sys, _) = seq_replay(m, h, false);
+            let evs = m.enabled(&sys, h);
+            drop(sys);
+            let mut succ = vec![];
+            for ev in evs {
+                let mut h2 = h.clone();
+                h2.push(ev);
+                let (s2, viols) = seq_replay(m, &h2, false);
+                let k = hash_of(&m.key(&s2));
+                let nt = m.nontrivial(&s2);
+                succ.push((k, h2, viols, nt));
+            }
+            succ
+        });
+        let mut next = vec![];
+        for succ in results {
+            for (k, h2, viols, nt) in succ {
+                rep.transitions += 1;
+                rep.evaluations += 1;
+                let bad = !viols.is_empty();
+                for v in viols {
+                    rep.violation(v);
+                }
+                if seen.insert(k) {
+                    rep.states += 1;
+                    if nt {
+                        rep.nontrivial_hash(k);
+                    }
+                    if rep.states % 1009 == 5 || rep.states == 12 {
+                        rep.sample(json!(h2.iter().map(|e| m.ev_str(e)).collect::<Vec<_>>().join(" ; ")));
+                    }
+                    if !bad {
+                        next.push(h2);
+                    }
+                }
+            }
+        }
+        depth_completed = d + 1;
+        frontier = next;
+        if rep.states > max_states {
+            capped = true;
+            break;
+        }
+    }
+    let closed = frontier.is_empty();
+    if capped {
+        rep.exhaustive = false;
+    }
+    SeqStats { depth_completed, frontier_left: frontier.len(), closed }
+}
+
+pub fn seq_replay_case<M: SeqModel>(m: &M, case: &Value, parse: impl Fn(&str) -> Option<M::Ev>) -> Vec<Violation> {
+    let hist: Vec<M::Ev> = case
+        .get("history")
+        .and_then(|h| h.as_array())
+        .map(|a| a.iter().filter_map(|s| s.as_str().and_then(&parse)).collect())
+        .unwrap_or_default();
+    let (_, v1) = seq_replay(m, &hist, true);
+    let (_, v2) = seq_replay(m, &hist, true);
+    let s1: Vec<String> = v1.iter().map(|v| v.sig_string()).collect();
+    let s2: Vec<String> = v2.iter().map(|v| v.sig_string()).collect();
+    if s1 != s2 {
+        machinery_failure("replaying the same history twice gave different observations");
+    }
+    v1
+}
+
+pub fn sigv(fields: &[(&str, &str)]) -> Vec<(String, String)> {
+    fields.iter().map(|(k, v)| (k.to_string(), v.to_string())).collect()
+}
